@@ -289,9 +289,9 @@ def audit(prop, theorems, imports):
     txt = r.stdout + r.stderr
     res = {t: None for t in theorems}
     # outputs: "'name' depends on axioms: [a, b]" or "'name' does not depend on any axioms"
-    for m in re.finditer(r"'([^']+)' depends on axioms: \[([^\]]*)\]", txt, re.S):
+    for m in re.finditer(r"'(\S+)' depends on axioms: \[([^\]]*)\]", txt, re.S):
         res[m.group(1)] = [a.strip() for a in m.group(2).replace("\n", " ").split(",") if a.strip()]
-    for m in re.finditer(r"'([^']+)' does not depend on any axioms", txt):
+    for m in re.finditer(r"'(\S+)' does not depend on any axioms", txt):
         res[m.group(1)] = []
     return res, txt
 
